@@ -22,7 +22,8 @@ Top-level clauses (from the property statement):
                       parent's report under its branch (whether or not it has a matching commit of its own).
 
 Pre-conditions of the generated histories (the statement's, made precise): component build numbers grow
-along ancestry; every parent commit pins a build-tagged component commit reachable from the component's
+along ancestry; a component commit may carry two build tags (a rebuild) - both numbers name the same build;
+every parent commit pins (by either number) a build-tagged component commit reachable from the component's
 head; along every parent edge the pinned commit of the child is the pinned commit of the parent or a
 descendant of it; all commit times of both repositories lie within one day.
 """
@@ -155,14 +156,24 @@ def _order_work(args):
 # histories: spec
 # ------------------------------------------------------------------------------------------------
 
-def build_label(d, is_head):
-    """how the report names the build made from commit d (own parse of the tag)"""
+def build_versions(d):
+    """[(major, minor, build)] of every build made from commit d (own parse of the tags), ascending.
+    A commit may have been built several times: all its numbers denote the same build commit."""
+    out = []
     for t in d.get('tags', []):
         p = gm.parse_build_tag(t)
         if p is not None:
             m = gm.RE_RELEASE_IN_TAG.match(p[1])
             if m:
-                return f"{int(m.group(1))}.{int(m.group(2))}.{p[0]}"
+                out.append((int(m.group(1)), int(m.group(2)), p[0]))
+    return sorted(out)
+
+
+def build_label(d, is_head):
+    """how the report names the build made from commit d: its (smallest) build number"""
+    v = build_versions(d)
+    if v:
+        return '.'.join(str(x) for x in v[0])
     return 'not built' if is_head else None
 
 
@@ -174,10 +185,22 @@ def pinned_commit(comp_hist, d):
         ver = None
     if ver is None:
         return None
+    try:
+        want = tuple(int(x) for x in ver.split('.'))
+    except ValueError:
+        return None
     for c in comp_hist['commits']:
-        if build_label(c, False) == '.'.join(str(int(x)) for x in ver.split('.')):
+        if want in build_versions(c):
             return c['id']
     return None
+
+
+def pinned_version(comp_hist, d):
+    try:
+        ver = json.loads(d.get('files', {}).get('DEPENDS', '{}')).get(comp_hist['name'])
+        return tuple(int(x) for x in ver.split('.'))
+    except (ValueError, AttributeError):
+        return None
 
 
 def expected_included(comp_hist, par_hist, ys):
@@ -240,6 +263,11 @@ def check(comp_hist, par_hist, text, obs_comp, obs_parent):
                                                    any(csp.contains(pin[P2], y) for y in ys if pin[P2] is not None)
                                                    for P2 in psp.builds[b])
                              for b, d in firsts.items() for P, new in d.items()),
+        'pins_larger_of_two': any(
+            pin[P] is not None and len(build_versions(csp.commits[pin[P]])) >= 2
+            and pinned_version(comp_hist, psp.commits[P]) == build_versions(csp.commits[pin[P]])[-1]
+            and pin[P] in ys
+            for b in psp.order for P in psp.builds[b]),
         'first_without_own_match': any(not (M & psp.anc_or_self(P)) for d in firsts.values() for P in d),
         'shape': shape,
         'n_firsts': sum(len(d) for d in firsts.values()),
@@ -356,12 +384,18 @@ def gen_component(rnd):
         match = set(rnd.sample(range(1, n + 1), rnd.randint(1, min(4, n))))
     commits = []
     num = rnd.randint(1, 5)
+    p_rebuild = rnd.choice([0, 0, .3, .6])
     times = sorted(rnd.randrange(40000) for _ in range(n))
     for i in range(1, n + 1):
         d = {'id': i, 'parents': plist[i - 1], 't': times[i - 1],
              'msg': f"{TEXT} lib change {i}" if i in match else f"lib work {i}"}
         if i in tagged:
             d['tags'] = [gm.release_tag(num, 3, 1)]
+            if rnd.random() < p_rebuild:
+                num += rnd.randint(1, 2)
+                d['tags'].append(gm.release_tag(num, 3, 1))       # the same commit built again
+                if rnd.random() < .5:
+                    d['tags'].reverse()
             num += rnd.randint(1, 3)
         commits.append(d)
     return {'name': COMP, 'commits': commits, 'branches': [[rnd.choice(['master', 'release/3.1']), n]]}
@@ -374,7 +408,8 @@ def gen_parent(rnd, comp_hist):
                if gm.is_build_commit(c) and c['id'] in csp.anc_or_self(chead)]
     if not targets:
         return None
-    label = {c['id']: build_label(c, False) for c in comp_hist['commits']}
+    versions = {c['id']: build_versions(c) for c in comp_hist['commits']}
+    pinver = {}
     n = rnd.randint(2, 10)
     commits = []
     pins = {}
@@ -407,9 +442,12 @@ def gen_parent(rnd, comp_hist):
             pins[i] = cands[0] if rnd.random() < .6 else rnd.choice(cands)
         else:
             pins[i] = rnd.choice(cands)
+        # any build number of the pinned commit that is not below a parent's pinned number
+        floor = max([pinver[p] for p in parents], default=(0, 0, 0))
+        pinver[i] = rnd.choice([v for v in versions[pins[i]] if v >= floor])
         d = {'id': i, 'parents': parents, 't': times[i - 1],
              'msg': f"{TEXT} app change {i}" if i in match else f"app work {i}",
-             'files': {'DEPENDS': json.dumps({COMP: label[pins[i]]})}}
+             'files': {'DEPENDS': json.dumps({COMP: '.'.join(str(x) for x in pinver[i])})}}
         if i in tagged:
             d['tags'] = [gm.release_tag(10 + i, 5, rnd.choice([4, 5]))]
         commits.append(d)
@@ -439,20 +477,21 @@ def preconditions_hold(case):
     comp, par = case['lib'], case['app']
     csp, psp = c06.Spec(comp), c06.Spec(par)
     (cb, chead), = comp['branches']
-    nums = {}
-    for c in comp['commits']:
-        for t in c.get('tags', []):
-            p = gm.parse_build_tag(t)
-            if p:
-                nums[c['id']] = p[0]
+    nums = {c['id']: build_versions(c) for c in comp['commits'] if build_versions(c)}
+    allv = [v for vs in nums.values() for v in vs]
+    if len(set(allv)) != len(allv):
+        return False
     for x, y in itertools.permutations(nums, 2):
-        if x != y and csp.contains(y, x) and not nums[x] < nums[y]:
+        if x != y and csp.contains(y, x) and not max(nums[x]) < min(nums[y]):
             return False
     pin = {i: pinned_commit(comp, d) for i, d in psp.commits.items()}
+    ver = {i: pinned_version(comp, d) for i, d in psp.commits.items()}
     for i, d in psp.commits.items():
         if pin[i] is None or pin[i] not in csp.anc_or_self(chead):
             return False
-        if any(not csp.contains(pin[i], pin[p]) for p in psp.parents[i]):
+        if any(not csp.contains(pin[i], pin[p]) or ver[i] < ver[p] for p in psp.parents[i]):
+            return False
+        if len(build_versions(d)) > 1:
             return False
     ts = [c.get('t', 0) for c in comp['commits']] + [c.get('t', 0) for c in par['commits']]
     return max(ts) - min(ts) < 86400
@@ -485,6 +524,7 @@ def _hist_work(args):
 REACH = ['pin moving across >= 2 report-related component builds',
          'parent build without own matching commit',
          'component with parallel report-related builds',
+         'parent pins the larger of two build numbers of one component commit',
          'dependency cycle', 'acyclic dependencies with >= 2 levels']
 
 
@@ -537,6 +577,8 @@ def run(b):
             b.hit(REACH[1])
         if facts['parallel_component_builds']:
             b.hit(REACH[2])
+        if facts['pins_larger_of_two']:
+            b.hit(REACH[3])
         for clause, ksuf, txt in fails:
             key = (clause, ksuf)
             size = len(json.dumps(case))
